@@ -133,6 +133,10 @@ type Conn struct {
 	// DelayReadDeadline delays every SetReadDeadline call by this long before it
 	// takes effect (models the calling goroutine being descheduled right there).
 	DelayReadDeadline time.Duration
+	// DelayReadTimeout: a Read that ends because the read deadline passed returns
+	// its timeout error this much later (the window in which a connection's
+	// timer has fired but its reader has not reacted yet).
+	DelayReadTimeout time.Duration
 	// ErrWithData: the Read that hands out the last queued byte also returns the
 	// pending read error (io.Reader allows n > 0 together with err != nil;
 	// crypto/tls does it when a close_notify follows the data).
@@ -195,7 +199,11 @@ func (c *Conn) Read(p []byte) (int, error) {
 			return 0, io.ErrClosedPipe
 		}
 		if isClosed(c.rdl.wait()) {
+			d := c.DelayReadTimeout
 			c.mu.Unlock()
+			if d > 0 {
+				time.Sleep(d) // the reader is "descheduled" between the timer firing and Read returning
+			}
 			return 0, ErrTimeout
 		}
 		if len(c.rq) > 0 {
